@@ -194,11 +194,14 @@ inductive NCond where
   | or (cs : List NCond)
   deriving Repr, Inhabited
 
+/-- the operation of a 2-tuple `(field, value)` and of a keyword filter -/
+def opEq : Str := "=".toList
+
 /-- keyword filters: each `name=value` is the 2-tuple `(name, value)` -/
 def mkKw : List (Str × Arg) → Except Fail (List NCond)
   | [] => .ok []
   | (k, a) :: rest => do
-    let l ← mkLeaf k "=".toList a
+    let l ← mkLeaf k opEq a
     let ls ← mkKw rest
     pure (.leaf l :: ls)
 
@@ -206,7 +209,7 @@ mutual
 /-- `SqlFilterCondition.make` -/
 def mkCond : Cond → Except Fail NCond
   | .triple f op a => do let l ← mkLeaf f op a; pure (.leaf l)
-  | .pair f a => do let l ← mkLeaf f "=".toList a; pure (.leaf l)
+  | .pair f a => do let l ← mkLeaf f opEq a; pure (.leaf l)
   | .badOp _ _ => .error (.py .attributeError)
   | .badShape => .error (.py .valueError)
   | .or cs kw => do
@@ -260,6 +263,54 @@ def toWheres : List NCond → List Where × List Arg
   | c :: cs => let r := toWhere c; let rs := toWheres cs; (r.1 :: rs.1, r.2 ++ rs.2)
 end
 
+mutual
+/-- the column expressions a clause mentions -/
+def whereFields : Where → List Str
+  | .cmp f _ => [f]
+  | .inList f _ _ => [f]
+  | .isNull f _ => [f]
+  | .like f _ => [f]
+  | .const _ => []
+  | .false => []
+  | .or ws => wheresFields ws
+def wheresFields : List Where → List Str
+  | [] => []
+  | w :: ws => whereFields w ++ wheresFields ws
+end
+
+mutual
+/-- the number of parameters a clause consumes -/
+def slots : Where → Nat
+  | .cmp _ _ => 1
+  | .inList _ _ n => n
+  | .isNull _ _ => 0
+  | .like _ _ => 1
+  | .const _ => 0
+  | .false => 0
+  | .or ws => slotsL ws
+def slotsL : List Where → Nat
+  | [] => 0
+  | w :: ws => slots w + slotsL ws
+end
+
+mutual
+/-- the column expressions the caller wrote -/
+def condFields : Cond → List Str
+  | .triple f _ _ => [f]
+  | .pair f _ => [f]
+  | .badOp f _ => [f]
+  | .badShape => []
+  | .or cs kw => condsFields cs ++ kw.map (·.1)
+def condsFields : List Cond → List Str
+  | [] => []
+  | c :: cs => condFields c ++ condsFields cs
+end
+
+def Call.fields (c : Call) : List Str := condsFields (c.args.filterMap id) ++ c.kwargs.map (·.1)
+
+/-- the character by which a placeholder is recognised in the text: `?`, or the `%` of `%s` -/
+def marker (pct : Bool) : Char := if pct then '%' else '?'
+
 /-- `_SQL_CLAUSES[placeholders_type]`; `pct = true` is the `%s` flavour -/
 def clauses (pct : Bool) : List (Str × Str) := if pct then Gen.C15.clausesP else Gen.C15.clausesQ
 
@@ -269,12 +320,15 @@ def clause (pct : Bool) (key : Str) : Except Fail Str :=
   | some c => .ok c
   | none => .error (.py .keyError)
 
+/-- key of the placeholder itself in the clause tables -/
+def phKey : Str := "PLACEHOLDER".toList
+
 mutual
 def render (pct : Bool) : Where → Except Fail Str
   | .cmp f c => do let cl ← clause pct (Op.cmp c).key; pure (f ++ cl)
   | .inList f neg n => do
     let cl ← clause pct (Op.isIn neg).key
-    let ph ← clause pct "PLACEHOLDER".toList
+    let ph ← clause pct phKey
     pure (f ++ cl ++ Gen.C15.listOpen ++ joinSep Gen.C15.listSep (List.replicate n ph) ++ Gen.C15.listClose)
   | .isNull f neg => do let cl ← clause pct (Op.isNull neg).key; pure (f ++ cl)
   | .like f neg => do let cl ← clause pct (Op.like neg).key; pure (f ++ cl)
@@ -299,17 +353,26 @@ structure Stmt where
   orderBy : Option Str
   deriving Repr, Inhabited
 
+/-- `if filters: sql += " WHERE " + " AND ".join(...)` -/
+def wherePart (ts : List Str) : Str :=
+  if ts.isEmpty then [] else Gen.C15.wherePfx ++ joinSep Gen.C15.andSep ts
+
+/-- `if self.group_by: sql += " GROUP BY " + self.group_by` (`None` and `""` are both false) -/
+def groupPart (st : Stmt) : Str :=
+  match st.groupBy with
+  | some g => if g.isEmpty then [] else Gen.C15.groupPfx ++ g
+  | none => []
+
+/-- `if order_by_clause is not None: sql += " ORDER BY " + order_by_clause` -/
+def orderPart (st : Stmt) : Str :=
+  match st.orderBy with
+  | some o => Gen.C15.orderPfx ++ o
+  | none => []
+
 /-- statement assembly in `_execute` -/
 def sqlText (pct : Bool) (st : Stmt) (ws : List Where) : Except Fail Str := do
   let ts ← renders pct ws
-  let w := if ts.isEmpty then [] else Gen.C15.wherePfx ++ joinSep Gen.C15.andSep ts
-  let g := match st.groupBy with
-    | some g => if g.isEmpty then [] else Gen.C15.groupPfx ++ g
-    | none => []
-  let o := match st.orderBy with
-    | some o => Gen.C15.orderPfx ++ o
-    | none => []
-  pure (st.selectFrom ++ w ++ g ++ o)
+  pure (st.selectFrom ++ wherePart ts ++ groupPart st ++ orderPart st)
 
 /-- sqlite3 binds `None`, `int`, `str`; a list, tuple or set is refused -/
 def bindAll : List Arg → Except Fail (List Value)
@@ -366,12 +429,17 @@ def Tri.not : Tri → Tri
 
 def Tri.negIf (neg : Bool) (t : Tri) : Tri := if neg then t.not else t
 
-/-- one row: column expression (as written in the conditions) ↦ cell -/
-abbrev Row := List (Str × Value)
+/-- one row as a statement sees it: column expression (as written in the conditions) ↦ cell.
+Statements that mention an unknown column do not compile and are outside the model (`selectRows`
+answers `none` for them). -/
+abbrev Row := Str → Value
 
-def Row.get : Row → Str → Option Value
+/-- the cells of one table row, by column expression -/
+abbrev Cells := List (Str × Value)
+
+def Cells.get? : Cells → Str → Option Value
   | [], _ => none
-  | (k, v) :: rest, f => if k = f then some v else Row.get rest f
+  | (k, v) :: rest, f => if k = f then some v else Cells.get? rest f
 
 /-- SQLite's order of values (used by comparisons on non-NULL values and by ORDER BY):
 NULL < integers (numeric) < texts (BINARY) -/
@@ -435,26 +503,34 @@ def likeSem (x p : Value) : Tri :=
   | some s, some pat => .ofBool (likeMatch pat s)
   | _, _ => .unk
 
+/-- `f <op> ?` -/
+def semCmp (row : Row) (f : Str) (c : CmpOp) (ps : List Value) : Option (Tri × List Value) :=
+  match ps with
+  | p :: rest => some (cmp3 c (row f) p, rest)
+  | [] => none
+
+/-- `f [NOT] IN (?, …, ?)` with `n` placeholders -/
+def semIn (row : Row) (f : Str) (neg : Bool) (n : Nat) (ps : List Value) : Option (Tri × List Value) :=
+  if ps.length < n then none else some (Tri.negIf neg (inSem (row f) (ps.take n)), ps.drop n)
+
+/-- `f IS [NOT] NULL` -/
+def semNull (row : Row) (f : Str) (neg : Bool) (ps : List Value) : Option (Tri × List Value) :=
+  some (Tri.negIf neg (isNullSem (row f)), ps)
+
+/-- `f [NOT] LIKE ?` -/
+def semLike (row : Row) (f : Str) (neg : Bool) (ps : List Value) : Option (Tri × List Value) :=
+  match ps with
+  | p :: rest => some (Tri.negIf neg (likeSem (row f) p), rest)
+  | [] => none
+
 mutual
 /-- value of one clause on a row; consumes its parameters from the front of the list, in the
-order of the `?` in the text. `none`: unknown column or not enough parameters (an SQLite error) -/
+order of the `?` in the text. `none`: not enough parameters (an error of the sqlite3 module) -/
 def semW (row : Row) : Where → List Value → Option (Tri × List Value)
-  | .cmp f c, ps =>
-    match row.get f, ps with
-    | some x, p :: rest => some (cmp3 c x p, rest)
-    | _, _ => none
-  | .inList f neg n, ps =>
-    match row.get f with
-    | some x => if ps.length < n then none else some (Tri.negIf neg (inSem x (ps.take n)), ps.drop n)
-    | none => none
-  | .isNull f neg, ps =>
-    match row.get f with
-    | some x => some (Tri.negIf neg (isNullSem x), ps)
-    | none => none
-  | .like f neg, ps =>
-    match row.get f, ps with
-    | some x, p :: rest => some (Tri.negIf neg (likeSem x p), rest)
-    | _, _ => none
+  | .cmp f c, ps => semCmp row f c ps
+  | .inList f neg n, ps => semIn row f neg n ps
+  | .isNull f neg, ps => semNull row f neg ps
+  | .like f neg, ps => semLike row f neg ps
   | .const b, ps => some (.ofBool b, ps)
   | .false, ps => some (.ff, ps)
   | .or ws, ps => semOr row ws ps
@@ -490,22 +566,20 @@ def sem (row : Row) (ws : List Where) (ps : List Value) : Option Tri :=
 
 /-- SQL meaning of `(f, op, value)` as written by the caller: `=`/`!=` with `None` is a NULL test,
 with a list/tuple a membership test; `IN` over nothing is false. `none`: not a filter (rejected
-by the code) or unknown column. -/
+by the code or by sqlite3). -/
 def intendedLeaf (row : Row) (f op : Str) (a : Arg) : Option Tri :=
-  match row.get f with
-  | none => none
-  | some x =>
-    match classify (upper op), a with
-    | some (.cmp .eq), .scalar .null => some (isNullSem x)
-    | some (.cmp .ne), .scalar .null => some (isNullSem x).not
-    | some (.cmp .eq), .list vs => some (inSem x vs)
-    | some (.cmp .ne), .list vs => some (inSem x vs).not
-    | some (.cmp c), .scalar v => some (cmp3 c x v)
-    | some (.isIn neg), .list vs => some (Tri.negIf neg (inSem x vs))
-    | some (.isIn neg), .set vs => some (Tri.negIf neg (inSem x vs))
-    | some (.isNull neg), .scalar .null => some (Tri.negIf neg (isNullSem x))
-    | some (.like neg), .scalar (.text p) => some (Tri.negIf neg (likeSem x (.text p)))
-    | _, _ => none
+  let x := row f
+  match classify (upper op), a with
+  | some (.cmp .eq), .scalar .null => some (isNullSem x)
+  | some (.cmp .ne), .scalar .null => some (isNullSem x).not
+  | some (.cmp .eq), .list vs => some (inSem x vs)
+  | some (.cmp .ne), .list vs => some (inSem x vs).not
+  | some (.cmp c), .scalar v => some (cmp3 c x v)
+  | some (.isIn neg), .list vs => some (Tri.negIf neg (inSem x vs))
+  | some (.isIn neg), .set vs => some (Tri.negIf neg (inSem x vs))
+  | some (.isNull neg), .scalar .null => some (Tri.negIf neg (isNullSem x))
+  | some (.like neg), .scalar (.text p) => some (Tri.negIf neg (likeSem x (.text p)))
+  | _, _ => none
 
 /-- strict three-valued OR of a list: `none` if a member is `none`, else true if a member is
 true, else unknown if a member is unknown, else false (does not depend on the order) -/
@@ -517,12 +591,12 @@ def orAll (l : List (Option Tri)) : Option Tri :=
 
 def intendedKw (row : Row) : List (Str × Arg) → List (Option Tri)
   | [] => []
-  | (k, a) :: rest => intendedLeaf row k "=".toList a :: intendedKw row rest
+  | (k, a) :: rest => intendedLeaf row k opEq a :: intendedKw row rest
 
 mutual
 def intended (row : Row) : Cond → Option Tri
   | .triple f op a => intendedLeaf row f op a
-  | .pair f a => intendedLeaf row f "=".toList a
+  | .pair f a => intendedLeaf row f opEq a
   | .badOp _ _ => none
   | .badShape => none
   | .or cs kw => orAll (intendeds row cs ++ intendedKw row kw)
@@ -530,6 +604,42 @@ def intendeds (row : Row) : List Cond → List (Option Tri)
   | [] => []
   | c :: cs => intended row c :: intendeds row cs
 end
+
+/-! ## forgetting the values (for the non-interference statement) -/
+
+/-- keeps only whether the value is `None`, an `int` or a `str` -/
+def Value.erase : Value → Value
+  | .null => .null
+  | .int _ => .int 0
+  | .text _ => .text []
+
+/-- keeps the kind of the argument, the length of a list/set and the types of the values -/
+def Arg.erase : Arg → Arg
+  | .scalar v => .scalar v.erase
+  | .list vs => .list (vs.map Value.erase)
+  | .set vs => .set (vs.map Value.erase)
+
+def eraseKw (kw : List (Str × Arg)) : List (Str × Arg) := kw.map fun ka => (ka.1, ka.2.erase)
+
+mutual
+/-- the condition with every value forgotten: field names, operations, shapes stay -/
+def Cond.erase : Cond → Cond
+  | .triple f op a => .triple f op a.erase
+  | .pair f a => .pair f a.erase
+  | .badOp f a => .badOp f a.erase
+  | .badShape => .badShape
+  | .or cs kw => .or (eraseConds cs) (eraseKw kw)
+def eraseConds : List Cond → List Cond
+  | [] => []
+  | c :: cs => c.erase :: eraseConds cs
+end
+
+def eraseArgs : List (Option Cond) → List (Option Cond)
+  | [] => []
+  | none :: as => none :: eraseArgs as
+  | some c :: as => some c.erase :: eraseArgs as
+
+def Call.erase (c : Call) : Call := { args := eraseArgs c.args, kwargs := eraseKw c.kwargs }
 
 /-! ## rows returned -/
 
@@ -540,41 +650,47 @@ def orderText (o : OrderSpec) : Str :=
   joinSep ", ".toList (o.map fun kd => kd.1 ++ (if kd.2 then " DESC".toList else []))
 
 /-- does row `r` come strictly before row `s`; `none`: unknown column -/
-def rowBefore : OrderSpec → Row → Row → Option Bool
+def rowBefore : OrderSpec → Cells → Cells → Option Bool
   | [], _, _ => some false
   | (k, desc) :: rest, r, s =>
-    match r.get k, s.get k with
+    match r.get? k, s.get? k with
     | some a, some b =>
       if vLt a b then some (!desc) else if vLt b a then some desc else rowBefore rest r s
     | _, _ => none
 
-def insertRow (o : OrderSpec) (r : Row) : List Row → Option (List Row)
+def insertRow (o : OrderSpec) (r : Cells) : List Cells → Option (List Cells)
   | [] => some [r]
   | s :: ss =>
-    match rowBefore o s r with
+    match rowBefore o r s with
     | none => none
-    | some true => (insertRow o r ss).map (s :: ·)
-    | some false =>
-      match rowBefore o r s with
-      | none => none
-      | some true => some (r :: s :: ss)
-      | some false => (insertRow o r ss).map (s :: ·)
+    | some true => some (r :: s :: ss)
+    | some false => (insertRow o r ss).map (s :: ·)
 
 /-- stable insertion sort -/
-def sortRows (o : OrderSpec) : List Row → Option (List Row)
+def sortRows (o : OrderSpec) : List Cells → Option (List Cells)
   | [] => some []
   | r :: rs =>
     match sortRows o rs with
     | some ss => insertRow o r ss
     | none => none
 
-/-- rows for which the WHERE clause is true -/
-def selectRows (ws : List Where) (ps : List Value) : List Row → Option (List Row)
+/-- the row a statement sees, provided every column expression it mentions is a key of the
+cells (`none` otherwise: the statement does not compile) -/
+def Cells.row? (c : Cells) (fields : List Str) : Option Row :=
+  if fields.all (fun f => (c.get? f).isSome) then
+    some (fun f => match c.get? f with | some v => v | none => .null)
+  else none
+
+/-- rows for which the WHERE clause is true; `fields`: the column expressions of the clause -/
+def selectRows (fields : List Str) (ws : List Where) (ps : List Value) : List Cells → Option (List Cells)
   | [] => some []
   | r :: rs =>
-    match sem r ws ps, selectRows ws ps rs with
-    | some t, some out => some (if t = .tt then r :: out else out)
-    | _, _ => none
+    match r.row? fields with
+    | none => none
+    | some row =>
+      match sem row ws ps, selectRows fields ws ps rs with
+      | some t, some out => some (if t = .tt then r :: out else out)
+      | _, _ => none
 
 inductive Method where
   | list | one | oneOrNone
@@ -583,7 +699,7 @@ inductive Method where
   deriving DecidableEq, Repr, Inhabited
 
 /-- `list` returns everything, `one` wants exactly one record, `one_or_none` at most one -/
-def finish (m : Method) (rows : List Row) : Except Fail (Option (List Row)) :=
+def finish (m : Method) (rows : List Cells) : Except Fail (Option (List Cells)) :=
   match m, rows with
   | .list, _ => .ok (some rows)
   | .one, [r] => .ok (some [r])
